@@ -10,6 +10,8 @@ package c13
 //   OP  ::= ptype               v.PType()              (Array/Hash.privateReducedType)
 //         | dtype               px.DetailedValueType(v) (Array/Hash.privateDetailedType)
 //         | str                 v.PType(); v.String()  (ToString asks PType() for the format first; the text does not depend on it)
+//         | hkey | eq | inst    px.ToKey(v) | v.Equals(copy) both ways | px.IsInstance(its detailed type, v): reads that
+//                               touch no lazily built type (the model: one step, answer full)
 //
 // All threads work on ONE shared value.  Yield points: "op" (harness) and the verifhook points placed right after the
 // publication of the cache pointer in the four fill functions (array|hash.reduced|detailed.published).
@@ -81,7 +83,7 @@ func buildVal(e sx.Sexp) px.Value {
 
 // cacheOp: the cache access of the op runs under the scheduler; rendering the answer does not (printing a type walks
 // temporary Arrays of its own, whose cache fills would otherwise be scheduled too)
-func cacheOp(v px.Value, op string) (res string) {
+func cacheOp(v px.Value, op string, fresh func() px.Value, refType px.Type) (res string) {
 	switch op {
 	case "ptype":
 		t := v.PType()
@@ -92,11 +94,19 @@ func cacheOp(v px.Value, op string) (res string) {
 	case "str":
 		v.PType() // what ToString does first (px.GetFormat(formatMap, v.PType()))
 		quietly(func() { res = v.String() })
+	case "hkey":
+		res = fmt.Sprintf("%x", string(px.ToKey(v)))
+	case "eq":
+		res = fmt.Sprint(v.Equals(fresh(), nil), fresh().Equals(v, nil))
+	case "inst":
+		res = fmt.Sprint(px.IsInstance(refType, v))
 	default:
 		panic(c12.Bad{})
 	}
 	return
 }
+
+var cacheOps = map[string]bool{"ptype": true, "dtype": true, "str": true, "hkey": true, "eq": true, "inst": true}
 
 func execCache(args []sx.Sexp) core.Result {
 	if len(args) != 3 || args[0].Tag() != "val" || len(args[0].Args()) != 1 || args[1].Tag() != "threads" || args[2].Tag() != "sched" {
@@ -111,7 +121,7 @@ func execCache(args []sx.Sexp) core.Result {
 		}
 		var p []string
 		for _, o := range t.Args() {
-			if o.IsList || (o.Atom != "ptype" && o.Atom != "dtype" && o.Atom != "str") {
+			if o.IsList || !cacheOps[o.Atom] {
 				return core.Result{Out: "bad-op", Pred: "n/a"}
 			}
 			p = append(p, o.Atom)
@@ -131,15 +141,17 @@ func execCache(args []sx.Sexp) core.Result {
 	}
 	// the sequential answers, on a fresh equal value
 	ref := map[string]string{}
-	for _, op := range []string{"ptype", "dtype", "str"} {
-		ref[op] = cacheOp(buildVal(vs), op)
+	fresh := func() px.Value { return buildVal(vs) }
+	refType := px.DetailedValueType(fresh())
+	for op := range cacheOps {
+		ref[op] = cacheOp(fresh(), op, fresh, refType)
 	}
 	raw := make([][]string, len(progs))
 	cacheSites := func(site string) bool {
 		return site == "op" || strings.HasSuffix(site, ".reduced.published") || strings.HasSuffix(site, ".detailed.published")
 	}
 	outs, sites, preempted := runThreads(len(progs), cacheSites, func(t int) int { return len(progs[t]) }, func(t, i int) string {
-		s := cacheOp(shared, progs[t][i]) // a panic is rendered "fault" by runThreads
+		s := cacheOp(shared, progs[t][i], fresh, refType) // a panic is rendered "fault" by runThreads
 		raw[t] = append(raw[t], s)
 		if s == ref[progs[t][i]] {
 			return "full"
@@ -186,6 +198,7 @@ func genCache(g *core.G) {
 		"(h ((s x61) (i 1)) ((s x62) (s x78)))", "(h ((i 1) (i 2)))", "(h ((s x61) (i 1)) ((i 2) (i 3)))", "(h)",
 	}
 	ops := []string{"ptype", "dtype", "str"}
+	allOps := []string{"ptype", "dtype", "str", "hkey", "eq", "inst"}
 	var progs [][]string
 	for _, x := range ops {
 		progs = append(progs, []string{x})
@@ -210,6 +223,16 @@ func genCache(g *core.G) {
 			}
 		}
 	}
+	// … and every pair of single steps over all six reads
+	for _, v := range vals {
+		for _, x := range allOps {
+			for _, y := range allOps {
+				interleavings([]int{2, 2}, func(s []int) {
+					g.Emit("cache (val " + v + ") (threads (th " + x + ") (th " + y + ")) " + schedStr(s))
+				})
+			}
+		}
+	}
 	// random: 3 threads × 1..3 steps
 	r := g.Rng
 	for i := 0; i < 500*g.Scale; i++ {
@@ -218,7 +241,7 @@ func genCache(g *core.G) {
 		for t := 0; t < 3; t++ {
 			var p []string
 			for j, m := 0, 1+r.Intn(3); j < m; j++ {
-				p = append(p, ops[r.Intn(3)])
+				p = append(p, allOps[r.Intn(len(allOps))])
 				total += 2
 			}
 			ths = append(ths, "(th "+strings.Join(p, " ")+")")
